@@ -13,8 +13,8 @@ import vlib
 HARNESSES = ("pending_h",)
 MLS = ("pending",)
 THEOREMS = ["C17_at_most_once", "C17_pairing", "C17_serials", "C17_serial_sequence", "C17_serial_nonzero", "C17_serial_wraps", "C17_serial_tie",
-            "C17_cancel_silent_partial", "C17_cancel_silent_refuted", "C17_fault_only_null_link", "C17_no_fault_refuted",
-            "C17_close_completes_refuted", "C17_queued_reply_completes_once", "C17_timeout_completes_once"]
+            "C17_cancel_silent_partial", "C17_cancel_silent_refuted", "C17_fault_only_null_link", "C17_no_fault_partial", "C17_no_fault_refuted",
+            "C17_close_completes_refuted", "C17_queued_reply_completes_once", "C17_timeout_completes_once", "C17_block_completes_once"]
 
 MAXCALLS = 6
 FAULT_REPLAYS = 12
@@ -383,6 +383,25 @@ def run(ctx):
             rep.violation("schedule `%s`: the model predicts a NULL dereference in _dbus_pending_call_set_reply_unlocked, the implementation answered `%s`" % (" ".join(ev), res[:300]),
                           {"events": " ".join(ev), "impl": res, "model": mout[k], "names": "correspondence pending_h vs PendingCall.Pending (fault class)"}, found_input=False)
 
+    # the serial counter at both ends of its range: table produced by compiling and running the C function (tools/gen/pending.py)
+    tie_checked = 0
+    tp = os.path.join(vlib.COQ, "Gen", "PendingTables.v")
+    if os.path.exists(tp):
+        mm = re.search(r"next_serial_samples[^=]*:=\s*\[(.*?)\]\.", open(tp).read(), re.S)
+        samples = re.findall(r"\((\d+), \((\d+), (\d+)\)\)", mm.group(1)) if mm else []
+        outs, _ = vlib.run_lines(model, ["serial 0 %s" % c0 for c0, _, _ in samples], shards=1)
+        for (c0, s_impl, c_impl), mo in zip(samples, outs):
+            tie_checked += 1
+            c0, s_impl, c_impl = int(c0), int(s_impl), int(c_impl)
+            if s_impl == 0 or c_impl == 0:
+                rep.violation("_dbus_connection_get_next_client_serial with the counter at %d hands out serial %d and leaves the counter at %d: "
+                              "a zero serial is (about to be) assigned" % (c0, s_impl, c_impl),
+                              {"function": "_dbus_connection_get_next_client_serial", "counter_before": c0, "serial": s_impl, "counter_after": c_impl,
+                               "how": "state reached after %d sends on one connection; function body compiled and run by tools/gen/pending.py" % (c0 - 1)})
+            elif mo.split() != [str(s_impl), str(c_impl)]:
+                rep.violation("_dbus_connection_get_next_client_serial(counter=%d) = (%d, %d) in C, %s in the model" % (c0, s_impl, c_impl, mo),
+                              {"counter_before": c0, "names": "correspondence next_serial (generated table vs model)"}, found_input=False)
+
     rep.coverage.update({
         "evaluations": len(normal) + min(len(faults), FAULT_REPLAYS),
         "distinct_nontrivial": len(nontrivial),
@@ -394,7 +413,7 @@ def run(ctx):
         "disagreements_checked": disagreements,
         "schedules_blocking_forever_skipped": hangs,
         "schedules_model_predicts_crash": len(faults), "crash_replays_confirmed": fault_seen,
-        "timing_retries": retried,
+        "timing_retries": retried, "serial_counter_samples_checked": tie_checked,
         "exhaustive": False,
         "explanation": "theorems are about every history of the event model; correspondence: implementation trace = model trace "
                        "(per event: serials, notify callbacks, messages reaching the filter, dispatch status, stolen replies, and after every "
